@@ -525,3 +525,51 @@ func VerifC03CancelDuringStep() {
 	vassert(still == 0, "no node execution the run started is still running when the run returns (cancelled or not)")
 	vquiesce()
 }
+
+// Batch execution with two (three) parallel nodes that all fail, each with its own error: the run fails, and which
+// failure it reports does not depend on the order in which the nodes finish - two runs of the same compiled graph,
+// scheduled independently, report the same node's error; likewise for the lists of an interrupt raised by two
+// nodes that ask for a rerun.
+func VerifC03ParallelFailures() {
+	ctx := context.Background()
+	vcfg("preempt", 2)
+	errs := map[string]error{"a": errors.New("c03 failure of a"), "b": errors.New("c03 failure of b")}
+	rerun := vchoose("rerun", 2) == 1
+	body := func(key string) *Lambda {
+		return InvokableLambda(func(ctx context.Context, in map[string]any) (map[string]any, error) {
+			vyield()
+			if rerun {
+				return nil, InterruptAndRerun
+			}
+			return nil, errs[key]
+		})
+	}
+	g := NewGraph[map[string]any, map[string]any]()
+	for _, k := range []string{"a", "b"} {
+		_ = g.AddLambdaNode(k, body(k))
+		_ = g.AddEdge(START, k)
+		_ = g.AddEdge(k, END)
+	}
+	var opts []GraphCompileOption
+	if vchoose("dag", 2) == 1 {
+		opts = append(opts, WithNodeTriggerMode(AllPredecessor))
+	}
+	r, err := g.Compile(ctx, opts...)
+	vassert(err == nil, "graph compiles")
+	_, e1 := r.Invoke(ctx, map[string]any{"in": 1})
+	vquiesce()
+	_, e2 := r.Invoke(ctx, map[string]any{"in": 1})
+	vquiesce()
+	vassert(e1 != nil && e2 != nil, "both runs fail")
+	if rerun {
+		i1, ok1 := ExtractInterruptInfo(e1)
+		i2, ok2 := ExtractInterruptInfo(e2)
+		vassert(ok1 && ok2 && len(i1.RerunNodes) == 2 && len(i2.RerunNodes) == 2, "both asking nodes are reported")
+		if ok1 && ok2 && len(i1.RerunNodes) == 2 && len(i2.RerunNodes) == 2 {
+			vassert(i1.RerunNodes[0] == i2.RerunNodes[0] && i1.RerunNodes[1] == i2.RerunNodes[1], "the interrupt information does not depend on the completion order")
+		}
+		return
+	}
+	vassert(errors.Is(e1, errs["a"]) || errors.Is(e1, errs["b"]), "the run reports the error of one of the failing nodes")
+	vassert(errors.Is(e1, errs["a"]) == errors.Is(e2, errs["a"]), "which failure is reported does not depend on the completion order")
+}
